@@ -16,8 +16,8 @@ worker() {
     i=$((i+1)); [ $((i % N)) -eq $W ] || continue
     ID=$(python3 -c "import json,sys; print(json.load(open(sys.argv[1]+'/meta.json'))['detection']['check'].split()[0])" $D 2>/dev/null || echo $D | cut -d/ -f2)
     git -C $WT checkout -q -- . ; git -C $WT clean -fdq
-    if git -C $WT apply $D/patch.diff 2>/dev/null; then
-      PYTHONPATH=$WT/src /venv/bin/python $D/demo.py >/dev/null 2>&1; DRC=$?
+    if git -C $WT apply /verif/$D/patch.diff 2>/dev/null; then
+      PYTHONPATH=$WT/src /venv/bin/python /verif/$D/demo.py >/dev/null 2>&1; DRC=$?
       OUT=$(VERIF_REPO=$WT VERIF_OUT=/tmp/regress_out.$$/w$W ./run_check.sh $ID quick 2>/dev/null); RC=$?
       V=$(echo "$OUT" | grep -c "^VIOLATION")
       echo "$D head=$HEAD demo_rc=$DRC check_exit=$RC violations=$V $([ $RC -eq 1 ] && [ $V -gt 0 ] && echo CAUGHT || echo MISSED)"
